@@ -84,6 +84,13 @@ def success_case(asm, acc, case):
             lines = ['include lib/part.asm'] + lines
         main = os.path.join(srcdir, 'main.asm')
         open(main, 'w').write('\n'.join(lines) + '\n')
+        if case['idx'] % 5 == 3:
+            # the input is named through a symbolic link (a shared main file linked into a board directory): whatever that means for
+            # the files it includes, the command line and assemble() are given the same name and owe the same program
+            os.makedirs(os.path.join(root, 'shared'))
+            os.rename(main, os.path.join(root, 'shared', 'main_real.asm'))
+            os.symlink(os.path.join(root, 'shared', 'main_real.asm'), main)
+            acc['ctr']['inputs_named_through_a_symlink'] += 1
         compress = case['compress']
         # reference: the API on the same file (C14 checks API vs flattened text)
         inc_api = list(incs) + ([os.path.join(core.repo_dir(), 'bronzebeard', 'definitions')] if case['defs'] else [])
